@@ -156,33 +156,27 @@ def unionAll {π : Type} : List (Fib κ π) → Fib κ (List (Option π))
     (gs.zipIdx 1).foldl (fun acc gi => unionStep gi.2 acc gi.1) (g.map (fun e => (e.1, [some e.2])))
 
 /-- `_mergeToFibertree(to_merge, merge_fn)`: one payload is returned as it is; leaves go through
-    `merge_fn`; fibers are united coordinate by coordinate and every operand that does not present
-    a coordinate contributes its *default* (`Payload.get(ps)[1:]`), so `merge_fn` also receives
-    the defaults of the absent operands.  The fibers it creates (`Fiber(coords, payloads,
-    active_range=…)`, fiber.py:4388) are given no default, i.e. `z` = 0, and stay un-owned while
-    `_mergeRanksHelper` runs: every operand therefore travels with the default its leaf fibers
-    carry (`dflt` for the tensor's own fibers, `z` for those made here). -/
-def mergeTrees (mf : List ν → Option ν) (z : ν) :
+    `merge_fn`; fibers are united coordinate by coordinate and, for every coordinate, only the
+    operands that present it take part (the union mask selects them); the fiber created for the
+    result is given the default of the first operand (`default=to_merge[0].getDefault()`).
+    Every operand travels with the default its leaf fibers carry (they are not owned by a rank
+    while `_mergeRanksHelper` runs); `_z` — the implementation's `Payload(0)` fallback — is no
+    longer used here. -/
+def mergeTrees (mf : List ν → Option ν) (_z : ν) :
     (r : Nat) → List (Tree κ ν r × ν) → Option (Tree κ ν r × ν)
   | 0, xs => match xs with
     | [] => none
     | [x] => some x
-    | _ => (mf (xs.map (fun x => x.1))).map (fun v => (v, z))
+    | x :: _ => (mf (xs.map (fun x => x.1))).map (fun v => (v, x.2))
   | r + 1, xs => match xs with
     | [] => none
     | [x] => some x
-    | _ =>
-      let rows := unionAll (xs.map (fun x => present x.2 r x.1))
-      -- a coordinate that none of the first two operands presents gets its entries for them from
-      -- the default of the *lazy* nested union `(a | b)`; below fibers of fibers these end up as
-      -- `None` leaves and `merge_fn` raises `TypeError`
-      if r ≥ 1 && rows.any (fun row => (row.2.take 2).all (fun o => o.isNone)) then none
-      else
-      (mapM? (fun row => (mergeTrees mf z r
-                  ((row.2.zip (xs.map (fun x => x.2))).map
-                    (fun od => (od.1.getD (defaultTree od.2 r), od.2)))).map (fun t => (row.1, t.1)))
-        rows).map
-        (fun l => ((show List (κ × Tree κ ν r) from l), z))
+    | x :: _ =>
+      (mapM? (fun row => (mergeTrees mf _z r
+                  ((row.2.zip (xs.map (fun x => x.2))).filterMap
+                    (fun od => od.1.map (fun t => (t, od.2))))).map (fun t => (row.1, t.1)))
+        (unionAll (xs.map (fun x => present x.2 r x.1)))).map
+        (fun l => ((show List (κ × Tree κ ν r) from l), x.2))
 
 /-- a payload together with the default of its leaf fibers -/
 def tagWith {π : Type} (d : ν) (f : Fib κ π) : Fib κ (π × ν) := f.map (fun e => (e.1, (e.2, d)))
@@ -381,12 +375,14 @@ def allEmptyAt (dflt : ν) (a k : Nat) (t : Tree κ ν (a + 1 + k)) : Bool :=
   (fibersAt a k t).all (fun f => isEmpty dflt (a + 1) f)
 
 /-- `Tensor.swapRanks(depth=k)`: nothing to swap → an empty root (since /repo COMMIT:C14-02; a deep
-    copy of the unswapped root before); otherwise `swapRanks` on every fiber of rank `k`
-    (`swapRanksBelow`) -/
+    copy of the unswapped root before); otherwise `swapRanks` on every non-empty fiber of rank `k`,
+    an empty fiber in place of the empty ones -/
 def swapT (comb : κ → κ → κ) (rev hd tl : κ → κ) (dflt : ν) (r k : Nat)
     (t : Tree κ ν (r + 2 + k)) : Option (Tree κ ν (r + 2 + k)) :=
   if allEmptyAt dflt (r + 1) k t then some (defaultTree dflt (r + 2 + k))
-  else atDepth (swapFiber comb rev hd tl dflt r) k t
+  else atDepth (fun s =>
+    if isEmpty dflt (r + 2) s then some (show Tree κ ν (r + 2) from ([] : List (κ × Tree κ ν (r + 1))))
+    else swapFiber comb rev hd tl dflt r s) k t
 
 /-- `Tensor.unflattenRanks(depth=k, levels=l+1)`: nothing to unflatten → an empty root -/
 def unflattenT (hd tl : κ → κ) (dflt : ν) (r l k : Nat)
@@ -480,8 +476,10 @@ def mergeSpec
 def prefixes (n : Nat) (c : Content κ ν) : List (List κ) :=
   (c.map (fun pv => pv.1.take n)).eraseDups
 
-/-- **flatten** never merges: it is defined iff no two sub-trees below the flattened ranks get
-    the same new coordinate; then every point moves to its image -/
+/-- a sufficient condition for **flatten** (= `mergeSpec` with the raising merge function) to be
+    defined: no two sub-trees below the flattened ranks get the same new coordinate; then every
+    point moves to its image.  (Sub-trees that collide while their points do not are united
+    without calling the merge function; the driver uses this only to tag such cases.) -/
 def flattenSpec
     (comb : Nat → κ → κ → κ) (k l : Nat) (c : Content κ ν) : Option (Content κ ν) :=
   let pre := prefixes (k + l + 2) c
